@@ -220,7 +220,7 @@ CHECKS = {
         assumptions=["the race detector reports unsynchronised conflicting accesses on the executions that happened; this is exploration of schedules (GOMAXPROCS, injected delays, repetition), not enumeration"],
         quick=dict(stages=[st(200, race=True, timeout=900),
                            st(8, shards=6, race=True, pkg="owsim", overlay=dict(map_main={"cmd/ow-sim": "owsim"}), run="TestGraphExecutionRaceFree", timeout=900, env={"VERIF_PROPERTY": "C05"})]),
-        thorough=dict(stages=[st(3500, shards=10, race=True, timeout=3500),
+        thorough=dict(stages=[st(2400, shards=10, race=True, timeout=3500),
                               st(400, shards=6, race=True, pkg="owsim", overlay=dict(map_main={"cmd/ow-sim": "owsim"}), run="TestGraphExecutionRaceFree", timeout=3000, env={"VERIF_PROPERTY": "C05"})]),
     ),
 }
